@@ -2,12 +2,12 @@ import Rawr.Proofs.RustSearchAgree_QSearch
 import Rawr.Proofs.GenShapeMove
 import Rawr.Proofs.MakeMoveAbsF
 /-!
-# The side condition `OrderOk` of the search agreement theorems holds on well-formed positions
+# The side condition of the search agreement theorems holds on well-formed positions
 
 `SrcOk p (legalMoves p)` (no generated move starts from an empty square, so `piece.unwrap()` in the ordering code
 cannot panic) follows from the generator shape lemmas for every position with the board facts `VFacts`
 (consistent boards, one own king, castling rights backed by rooks, a well-formed en-passant square);
-`ValidPos p` implies `VFacts p` (`gen_shape_valid`).
+`ValidPos p` implies `VFacts p` (`vfacts_of_valid`); `RustSearchAgree_Rules.lean` carries this along the search tree.
 -/
 namespace Rawr
 
@@ -17,10 +17,6 @@ theorem srcOk_of_vfacts {p : Position} (F : VFacts p) : SrcOk p (legalMoves p) :
   obtain ⟨g, hg, rfl⟩ := List.mem_map.mp hm
   obtain ⟨i, hi⟩ := MM.shape_piece (moveShape_of_genOk F (gen_shape_of p F g hg))
   simp [hi]
-
-/-- `OrderOk` from an invariant of the reachable positions. -/
-theorem orderOk_of_reach {p : Position} (h : ∀ q, Reach p q → VFacts q) : OrderOk p :=
-  fun q hq => srcOk_of_vfacts (h q hq)
 
 end Rawr
 
